@@ -15,7 +15,8 @@ CLAIM = dict(
           'pass a strength linear-homogeneous in dt (so half steps compose), the diffusion step filter normalises by the padding-aware top eigenvalue with '
           'the same order, leaves failing the shape gate are returned untouched, Robert–Asselin weights are (r, 1−2r, r) with the newest level returned '
           'unchanged, and the (u, u_next) adapters filter only the newest state. Does not decide slice-by-slice equality for array-valued strengths '
-          '(run-time broadcasting).'),
+          '(run-time broadcasting).'
+          ' Later additions: C15.9 the diffusion normalisation reads the eigenvalue at index total_wavenumbers − 1 exactly; C15.10 shared arrays (cached eigenvalues are never negated in place).'),
     note=('Parameter assumptions (documented ranges): attenuation, scale ≥ 0; order a positive integer; 0 ≤ cutoff < 1; tau, dt, radius > 0; '
           'total wavenumbers ≥ 0 with positive maximum. Trusted: python ast, sympy canonicalisation, numpy broadcasting rules for the shape gate.'),
     technique='abstract interpretation (SIGN / monotone / value-at-zero domains, linearity by normal forms) of the filter scaling expressions + dependence sets',
